@@ -140,6 +140,10 @@ def generate(rng, prefix="", n_funcs=None, with_main=True, rich=True):
     if rng.random() < 0.35:
         ptr_struct = "%sP0" % px
         P.add(Item(ptr_struct, "struct", "struct %s\n{\n\tp: &i32,\n\tn: i32,\n}\n" % ptr_struct))
+    opaque = None
+    if rng.random() < 0.3:
+        opaque = "%sO0" % px
+        P.add(Item(opaque, "struct", "struct %s;\n" % opaque))
     for i in range(rng.randint(1, 3)):
         name = "%sS%d" % (px, i)
         members = [("a", "i32", "int")]
@@ -204,6 +208,9 @@ def generate(rng, prefix="", n_funcs=None, with_main=True, rich=True):
              "flag", "printv", "len", "guard", "eprint"]
     if not words:
         kinds.remove("word")
+    kinds += ["sizeof", "noop", "sizedptr", "grid", "shared_text"]
+    if opaque:
+        kinds.append("opaque")
     if small_words:
         kinds.append("smallword")
     if ptr_struct:
@@ -281,6 +288,31 @@ def generate(rng, prefix="", n_funcs=None, with_main=True, rich=True):
             lines = ["return: (%s) %% %d" % (expr, MOD)]
             body, head = _fn(name, "w: %s" % w, "i32", lines)
             it = P.add(Item(name, "fn", body, head, ("word_i", w)))
+        elif kind == "sizeof":
+            t = rng.choice(sorted(structs) + words + small_words)
+            body, head = _fn(name, "v: i32", "i32", ["return: (v + |:%s| as i32) %% %d" % (t, MOD)])
+            it = P.add(Item(name, "fn", body, head, ("i_i",)))
+        elif kind == "noop":
+            # a parameter and an empty body
+            body, head = _fn(name, "code: i32", None, [])
+            it = P.add(Item(name, "fn", body, head, ("print_v",)))
+        elif kind == "sizedptr":
+            n = rng.choice(sorted(nvals))
+            body, head = _fn(name, "xs: &[%s]i32, v: i32" % n, "i32", ["return: (|xs| as i32 * %d + v) %% %d" % (rng.randint(2, 9), MOD)])
+            it = P.add(Item(name, "fn", body, head, ("sizedptr", n)))
+        elif kind == "grid":
+            n = rng.choice(sorted(nvals))
+            body, head = _fn(name, "m: [][%s]i32" % n, "i32", ["return: (m[1][0] * %d + m[0][1]) %% %d" % (rng.randint(2, 9), MOD)])
+            it = P.add(Item(name, "fn", body, head, ("grid", n)))
+        elif kind == "shared_text" and rich:
+            # the same literal bytes in several functions (and so in several modules)
+            a, b = rng.sample(["alpha\\n", "beta\\n", "gamma\\n", "delta\\n"], 2)
+            lines = ['print!("%s");' % a, 'print!("%s");' % b]
+            body, head = _fn(name, "v: i32", None, lines)
+            it = P.add(Item(name, "fn", body, head, ("print_v",)))
+        elif kind == "opaque":
+            body, head = _fn(name, "h: &%s, v: i32" % opaque, "i32", ["return: v + 1"])
+            it = P.add(Item(name, "fn", body, head, ("uncallable",)))
         elif kind == "smallword":
             w = rng.choice(small_words)
             if w.endswith("H1"):
@@ -420,6 +452,23 @@ def generate(rng, prefix="", n_funcs=None, with_main=True, rich=True):
                     lines.append("acc = (acc + %s(%s)) %% %d;" % (f, word_literal(sig[1]), MOD))
                 else:
                     lines.append("acc = (acc + %s(%s)) %% %d;" % (f, w_var(sig[1]), MOD))
+            elif sig[0] == "sizedptr":
+                n = sig[1]
+                if n not in arrs:
+                    v = "arr%d" % len(arrs)
+                    arrs[n] = v
+                    lines.append("var %s: [%s]i32 = [%s];" % (v, n, ", ".join(str(rng.randint(0, 9)) for _ in range(nvals[n]))))
+                lines.append("acc = (acc + %s(&%s, %d)) %% %d;" % (f, arrs[n], rng.randint(0, 9), MOD))
+            elif sig[0] == "grid":
+                n = sig[1]
+                gv = "grid_%s" % n.lower()
+                if gv not in svars:
+                    svars[gv] = gv
+                    rows = ["[%s]" % ", ".join(str(rng.randint(0, 9)) for _ in range(nvals[n])) for _ in range(2)]
+                    lines.append("var %s: [2][%s]i32 = [%s];" % (gv, n, ", ".join(rows)))
+                lines.append("acc = (acc + %s(%s)) %% %d;" % (f, gv, MOD))
+            elif sig[0] == "uncallable":
+                pass
             elif sig[0] == "smallword_i":
                 if sig[1].endswith("H1"):
                     lit = "%s { a: %d, b: %s { lo: %d, hi: %d } }" % (sig[1], rng.randint(0, 99), small_words[0], rng.randint(0, 9), rng.randint(0, 9))
@@ -713,14 +762,19 @@ def twin_module(prog, rng):
     structure given another layout. Lengths (usize constants) are kept, so the
     twin's tables have the same *type* as the originals."""
     out = []
+    longer = rng.random() < 0.4      # variant: other array lengths too
+    bumped = set()
     for it in prog.items:
         if it.name in ("main", "abs"):
             continue
         body = it.body
-        if it.kind == "const":
+        if longer and it.kind == "const" and re.match(r"const \w+: usize = \d+;", body):
+            body = re.sub(r"= (\d+);", lambda m: "= %d;" % (int(m.group(1)) + 1), body)
+            bumped.add(it.name)
+        elif it.kind == "const":
             if body.startswith("const %s: [" % it.name):
                 body = re.sub(r"\[([0-9, ]+)\];", lambda m: "[%s];" % ", ".join(
-                    str((int(x) + 1 + i) % 10) for i, x in enumerate(m.group(1).split(", "))), body)
+                    [str((int(x) + 1 + i) % 10) for i, x in enumerate(m.group(1).split(", "))] + (["7"] if longer else [])), body)
             elif ": i32 = " in body:
                 body = re.sub(r"(= |\+ )(\d+);", lambda m: "%s%d;" % (m.group(1), int(m.group(2)) + 1), body)
         elif it.kind == "struct":
